@@ -152,6 +152,23 @@ Theorem C03_reachable_wf :
 Proof. intros hmac v es. exact (run_wf hmac MaxFailures PermanentBanAt v es init init_wf). Qed.
 Print Assumptions C03_reachable_wf.
 
+(* "the latest challenge it issued on that connection": in every reachable state the challenge pending on connection k — the one
+   proof_core compares the response with — is the challenge of the most recent handshake on k that was answered with a challenge
+   (last_issued reads the handler outcomes along the history only) *)
+Theorem C03_pending_is_latest_issued :
+  forall hmac v es k ch,
+  pending_of (run hmac MaxFailures PermanentBanAt v init es) k = Some ch ->
+  last_issued hmac MaxFailures PermanentBanAt v init es k None = Some ch.
+Proof. intros hmac. exact (pending_is_latest_issued hmac MaxFailures PermanentBanAt). Qed.
+Print Assumptions C03_pending_is_latest_issued.
+
+Theorem C03_latest_issued_satisfiable :
+  let es := [ERegister; EOpen 1 0; EMsg 1 (p1 1 false); EMsg 1 (p1 1 false)] in
+  pending_of (run toy_hmac 5 20 current_variant init es) 1 = Some 2 /\
+  last_issued toy_hmac 5 20 current_variant init es 1 None = Some 2.
+Proof. exact latest_issued_satisfiable. Qed.
+Print Assumptions C03_latest_issued_satisfiable.
+
 (* (2) every challenge is used for at most one verification, over any history; and a challenge-response
    success is one of these verifications, against a challenge issued earlier *)
 Theorem C03_challenge_single_use :
